@@ -196,20 +196,20 @@ JudgeDecapQ(e, rx, q, crc) ==
         \cup V(delim /\ w.why = "unknown_mandatory" => (r.t = "err" /\ cons = pl), <<"C13", "C10">>, "Rx.UnknownMandatoryDropsWhole")
         \cup V(labelOk, <<"C04">>, "Rx.ResolveNearest")
         \* complete packets
-        \cup V(cMust => (r.t = "completed" \/ ~np), PP(<<"C01">>), "Rx.CompleteDeliver")
+        \cup V(cMust => r.t = "completed", PP(<<"C01">>), "Rx.CompleteDeliver")
         \cup V(wf /\ kind = "complete" /\ r.t = "completed" =>
                   /\ r.pdu = Payload(p, w) /\ r.meta.pdu_len = w.plen
                   /\ r.meta.ptype = w.ptype, PP(<<"C01">>), "Rx.CompleteContent")
         \cup V(wf /\ isStart /\ hasMeta => r.meta.exts = w.exts, <<"C13">>, "Rx.ExtensionsReported")
         \cup V(wf /\ kind = "complete" /\ ~zeroLab /\ r.t = "err" /\ (cNoBuf \/ unresolvable) => cons = pl, <<"C10">>, "Rx.RejectOwnLen.complete")
         \* first fragments
-        \cup V(fMust => (r.t = "fragmented" \/ ~np), PP(<<"C02">>), "Rx.FirstAccept")
+        \cup V(fMust => r.t = "fragmented", PP(<<"C02">>), "Rx.FirstAccept")
         \cup V(wf /\ kind = "first" /\ r.t = "fragmented" => r.meta.ptype = w.ptype, PP(<<"C02">>), "Rx.FirstMeta")
         \cup V(wf /\ kind = "first" /\ r.t = "fragmented" /\ post.ok =>
                   (postHas /\ pctx.pdu_len = w.plen /\ pctx.tl = w.tl), <<"C07", "C02">>, "Rx.FirstOpensContext")
         \cup V(wf /\ kind = "first" /\ ~zeroLab /\ tlCons /\ r.t = "err" /\ (fNoBuf \/ unresolvable) => cons = pl, <<"C10">>, "Rx.RejectOwnLen.first")
         \* intermediate fragments
-        \cup V(iMust => (r.t = "fragmented" \/ ~np), PP(<<"C02">>), "Rx.Append")
+        \cup V(iMust => r.t = "fragmented", PP(<<"C02">>), "Rx.Append")
         \cup V(wf /\ kind = "inter" /\ r.t = "fragmented" /\ g.open =>
                   /\ r.meta.label = g.first.label /\ r.meta.ptype = g.first.ptype /\ r.meta.exts = g.first.exts,
                PP(<<"C02">>), "Rx.InterMetaIsFirsts")
@@ -226,7 +226,7 @@ JudgeDecapQ(e, rx, q, crc) ==
         \cup V(kind = "end" /\ r.t = "completed" => ~g.done, <<"C07", "C02">>, "Rx.ExactlyOnce")
         \* (a train that verifies under the specification's CRC must be delivered: if it is not, the receiver's
         \* own length / CRC recomputation is at fault - C12 for the CRC arguments)
-        \cup V(eMust => (r.t = "completed" \/ ~np), PP(<<"C02", "C12">>), "Rx.EndDelivers")
+        \cup V(eMust => r.t = "completed", PP(<<"C02", "C12">>), "Rx.EndDelivers")
         \cup V(wf /\ kind = "end" /\ r.t = "err" /\ gAgree /\ ~verified => cons = pl, <<"C10">>, "Rx.RejectOwnLen.badcrc")
         \cup V(unknownId => (r.t = "err" /\ cons = pl), <<"C10", "C07">>, "Rx.UnknownIdRejectedOwnLen")
         \* isolation, conservation
@@ -244,7 +244,7 @@ JudgeDecapQ(e, rx, q, crc) ==
                   /\ (r.t = "completed" => r.pdu = e.alone.pdu), <<"C10">>, "Rx.TailIndependent")
         \* lock-step: the end packet of a train the real sender produced, fed in order into a receiver that
         \* kept every fragment, completes the PDU
-        \cup V(isPend /\ rx.pend.kind = "end" /\ wf /\ kind = "end" /\ gAgree /\ fits /\ ~inj => (r.t = "completed" \/ ~np),
+        \cup V(isPend /\ rx.pend.kind = "end" /\ wf /\ kind = "end" /\ gAgree /\ fits /\ ~inj => r.t = "completed",
                IF Len(sess.exts) > 0 THEN Append(PP(<<"C02">>), "C13") ELSE PP(<<"C02">>), "Rx.LockStepEndDelivers")
         \* lock-step attribution and round trip
         \cup V(isPend /\ hasMeta /\ rx.pend.kind \in {"complete", "first"} => r.meta.label = rx.pend.intended,
